@@ -200,17 +200,15 @@ contract('parso.cache._save_to_file_system',
          raises=['Exception', 'OSError'], modifies=['$fobj'], lists=[],
          call_keys={'ext:io.open': 'ext:io.open#write'}, props=['C17'],
          note='writing the pickle may fail in any way (full disk, permissions, unpicklable tree, recursion)')
-contract('parso.cache._remove_cache_and_update_lock', params={'cache_path': 'any'}, trusted=True, raises=['OSError'], lists=[],
-         modifies=['$fobj'],
-         note='environment: directory clean-up; only OSError escapes it (effect obligation eff:C17:raises)')
 contract('ext:_warnings.warn', params={'message': 'any', 'category': 'any'}, trusted=True,
          note='ASSUMED not to raise: under the default warning filters a warning is printed; with -W error a failed save '
               'would surface as an exception (configuration outside the property)')
 contract('parso.cache.try_to_save_module',
          params={'hashed_grammar': 'any', 'file_io': 'ref:FileIO', 'module': 'ref:Module', 'lines': 'any', 'pickling': 'bool',
                  'cache_path': 'any'},
-         globals_=CACHE,
+         globals_=dict(CACHE, _default_cache_path='ref:Path'),
          requires=['file_io is not None', 'module is not None', 'parser_cache is not None', 'allocated(parser_cache)',
+                   '_default_cache_path is not None',
                    'forall(lambda g: implies(g in parser_cache, parser_cache[g] is not None and parser_cache[g] is not parser_cache '
                    'and allocated(parser_cache[g])))',
                    'forall(lambda g1, g2: implies(g1 in parser_cache and g2 in parser_cache and g1 != g2, '
@@ -344,8 +342,8 @@ contract('parso.cache.clear_inactive_cache#auto', params={'cache_path': 'ref:Pat
          raises=['OSError'], modifies=[], lists=[], trusted=True, refines='parso.cache.clear_inactive_cache',
          note='clear_inactive_cache (verified under its own key) with the policy obligation of the automatic clean-up: it runs '
               'with a threshold not below the default')
-contract('parso.cache._remove_cache_and_update_lock#maint', params={'cache_path': 'ref:Path'}, globals_=MAINT,
-         requires=['_default_cache_path is not None'], raises=['OSError'], modifies=[], lists=[],
+contract('parso.cache._remove_cache_and_update_lock', params={'cache_path': 'ref:Path'}, globals_=MAINT,
+         requires=['_default_cache_path is not None'], raises=['OSError'], modifies=['$fobj'], lists=[],
          call_keys={'parso.cache._touch': 'parso.cache._touch#lock',
                     'parso.cache.clear_inactive_cache': 'parso.cache.clear_inactive_cache#auto'},
          locals_={}, props=['C17'])
